@@ -23,12 +23,12 @@ CONFIG = {
     ],
     "partial": [
         "C18_reflect_total / C18_cache_schema_total: totality for all descriptor sets satisfying wf_total (enums non-empty; enum split names apart from message / oneof split names)",
-        "C18_reflect_ok_guarantees (wf_desc): distinct keys, no placeholder, unique property names per object / oneof, known scalar formats, closed references are theorems; that every proto path resolves to a field of the matching kind (props_resolve) and codec usability (codec_classes) are executable predicates compared with the real reader / codec on every case, not yet theorems",
+        "C18_reflect_ok_guarantees (wf_desc) and C18_reflect_consistent (wf_paths = wf_desc + distinct field numbers per message): distinct keys, no placeholder, unique property names, known scalar formats, closed references, and every proto field path resolving to a field of the matching kind are theorems for every successful reflection; codec usability (codec_classes) and termination of ClientProperties are executable predicates compared with the real reflector / codec on every case, not theorems",
     ],
 }
 
 MANIFEST = {
     "text": "Theorems over a Gallina model of the proto-to-J5 schema reader (SchemaSetFromFiles / SchemaCache.Schema with placeholder recursion, all of buildScalarType / buildFromStringProto / wktSchema / buildEnum / messageProperties incl. exposed oneofs, checkFlattenCycle, ClientProperties, newPropSet / buildProperty), for all abstract proto3 descriptor sets with arbitrary annotation trees.",
-    "note": "Proved for all descriptor sets with non-empty enums and no enum/message split-name collision: the reader (incl. SchemaCache over any call history) never panics and never exhausts fuel |messages|+1. Also proved (wf_desc): a successful reflection has distinct keys, no unlinked placeholder, pairwise distinct property names per object / oneof, known scalar formats and closed references. Partial: paths-resolve and codec-usable are checked per case against the real code (model predicates), not proved for all inputs; three refutation witnesses of the full statement are proved (name collision, Struct, flatten name clash) and listed as known findings. Entry point with dynamicpb extension values is outside the property (observation only). Trusted: Coq kernel; translator; harness and descriptor dump.",
+    "note": "Proved for all descriptor sets with non-empty enums and no enum/message split-name collision: the reader (incl. SchemaCache over any call history) never panics and never exhausts fuel |messages|+1. Also proved (wf_desc): a successful reflection has distinct keys, no unlinked placeholder, pairwise distinct property names per object / oneof, known scalar formats and closed references. Also proved (wf_paths): every recorded proto field path resolves to a field of the matching kind (C18_reflect_consistent). Partial: codec usability is checked per case against the real code (model predicate), not proved for all inputs; three refutation witnesses of the full statement are proved (name collision, Struct, flatten name clash) and listed as known findings. Entry point with dynamicpb extension values is outside the property (observation only). Trusted: Coq kernel; translator; harness and descriptor dump.",
     "technique": "Rocq/Coq proof (invariant over the placeholder recursion) + regenerated switch-arm tables + in-Coq differential correspondence on generated descriptor sets in crash-isolated workers",
 }
